@@ -206,3 +206,25 @@ Theorem C11_accept_empty_refuted :
   forall c items, items <> [] -> exists t, cache_hit_accept_empty c (Some []) = Some t /\ t <> spec_toc c items.
 Proof. split; [exact empty_passes_for_both_classes|exact accept_empty_refuted]. Qed.
 Print Assumptions C11_accept_empty_refuted.
+
+(* fetch is total: in EVERY state of the TocCache object and of the file system — including a file that the object
+   lists (found at construction or stored by its own insert) but that is gone (deleted, replaced by a directory,
+   unreadable) — fetch returns a table or a miss, never an exception; a listed-but-gone file is a miss *)
+Theorem C11_fetch_total : forall (par : list Z -> option jdoc) st fs crc,
+  cfetch_x true par st fs crc = FOk (cfetch par st fs crc).
+Proof. exact (@fetch_total (list Z)). Qed.
+Print Assumptions C11_fetch_total.
+
+Theorem C11_listed_but_gone_is_miss : forall (par : list Z -> option jdoc) st (fs : fsys (list Z)) crc d nm,
+  last_match (cache_name crc) (c_files st) None = Some (d, nm) -> dget nm (files d fs) = None ->
+  cfetch par st fs crc = Miss.
+Proof. exact (@listed_but_gone_is_miss (list Z)). Qed.
+Print Assumptions C11_listed_but_gone_is_miss.
+
+(* refutation of a stat placed before the guard *)
+Theorem C11_stat_outside_guard_refuted :
+  let st := mkC [(RW, cache_name 7)] true in
+  let fs := @mkFs (list Z) [] [] in
+  cfetch_x false (fun _ => None) st fs 7 = FRaise /\ cfetch_x true (fun _ => None) st fs 7 = FOk Miss.
+Proof. exact stat_outside_guard_refuted. Qed.
+Print Assumptions C11_stat_outside_guard_refuted.
